@@ -71,19 +71,19 @@ theorem c04_PathOK_ne_nil {l : List (PathEl K)} (hl : c04_PathOK l) : l ≠ [] :
 
 /-! ### round joins and caps: only `CurveTo` -/
 
-theorem c04_roundJoinWith_curves (a : Affine K) (angle : K) : ∀ e ∈ roundJoinWith a angle, c04_isCurve e = true := by
+theorem c04_roundJoinWith_curves (tol : K) (a : Affine K) (angle : K) : ∀ e ∈ roundJoinWith tol a angle, c04_isCurve e = true := by
   intro e he
   unfold roundJoinWith at he
   rw [List.mem_filterMap] at he
   obtain ⟨x, _, hx⟩ := he
   cases x <;> cases hx <;> rfl
 
-theorem c04_roundJoin_curves (c : Point K) (n : Vec2 K) (angle : K) : ∀ e ∈ roundJoin c n angle, c04_isCurve e = true :=
-  c04_roundJoinWith_curves _ _
-theorem c04_roundJoinRev_curves (c : Point K) (n : Vec2 K) (angle : K) : ∀ e ∈ roundJoinRev c n angle, c04_isCurve e = true :=
-  c04_roundJoinWith_curves _ _
-theorem c04_roundCap_curves (c : Point K) (n : Vec2 K) : ∀ e ∈ roundCap c n, c04_isCurve e = true :=
-  c04_roundJoinWith_curves _ _
+theorem c04_roundJoin_curves (tol : K) (c : Point K) (n : Vec2 K) (angle : K) : ∀ e ∈ roundJoin tol c n angle, c04_isCurve e = true :=
+  c04_roundJoinWith_curves _ _ _
+theorem c04_roundJoinRev_curves (tol : K) (c : Point K) (n : Vec2 K) (angle : K) : ∀ e ∈ roundJoinRev tol c n angle, c04_isCurve e = true :=
+  c04_roundJoinWith_curves _ _ _
+theorem c04_roundCap_curves (tol : K) (c : Point K) (n : Vec2 K) : ∀ e ∈ roundCap tol c n, c04_isCurve e = true :=
+  c04_roundJoinWith_curves _ _ _
 
 /-! ### what one step appends -/
 
@@ -192,9 +192,9 @@ def c04_joinApp (c : StrokeCtx K) (style : StrokeStyle K) (tan0 : Vec2 K) : List
     else
       let angle := Scalar.atan2 cross dot
       if (0 : K) <. angle then
-        (c04_pivotF p0 cross ++ roundJoin p0 norm angle, c04_pivotB p0 cross ++ [.LineTo (p0 + norm)])
+        (c04_pivotF p0 cross ++ roundJoin c.join_thresh p0 norm angle, c04_pivotB p0 cross ++ [.LineTo (p0 + norm)])
       else
-        (c04_pivotF p0 cross ++ [.LineTo (p0 - norm)], c04_pivotB p0 cross ++ roundJoinRev p0 (-norm) (-angle))
+        (c04_pivotF p0 cross ++ [.LineTo (p0 - norm)], c04_pivotB p0 cross ++ roundJoinRev c.join_thresh p0 (-norm) (-angle))
   else ([], [])
 
 open Ops in
@@ -307,8 +307,8 @@ theorem c04_joinApp_segs (c : StrokeCtx K) (style : StrokeStyle K) (tan0 : Vec2 
       · exact ⟨c04_Segs_append mf (c04_Segs_append pf (c04_Segs_line _)),
           c04_Segs_append mb (c04_Segs_append pb (c04_Segs_line _))⟩
       · split
-        · exact ⟨c04_Segs_append pf (c04_Segs_of_curves (c04_roundJoin_curves _ _ _)), c04_Segs_append pb (c04_Segs_line _)⟩
-        · exact ⟨c04_Segs_append pf (c04_Segs_line _), c04_Segs_append pb (c04_Segs_of_curves (c04_roundJoinRev_curves _ _ _))⟩
+        · exact ⟨c04_Segs_append pf (c04_Segs_of_curves (c04_roundJoin_curves _ _ _ _)), c04_Segs_append pb (c04_Segs_line _)⟩
+        · exact ⟨c04_Segs_append pf (c04_Segs_line _), c04_Segs_append pb (c04_Segs_of_curves (c04_roundJoinRev_curves _ _ _ _))⟩
   · exact ⟨c04_Segs_nil, c04_Segs_nil⟩
 
 /-- with bevel or miter joins only `LineTo`s are appended -/
